@@ -190,7 +190,7 @@ Section EngineH.
         bind (recp p c s stk lrc pos) (fun '(ho, res, cp, err, c', s') =>
           match err with
           | Some e => let ep := fst (skip_ws inp (epos e) m) in
-                      Ok (ho, res, cp, Some (if epos e <? ep then mk_err ep (ecause e) else e), c', s')
+                      Ok (ho, res, cp, Some (if is_wserr e then e else if epos e <? ep then mk_err ep (ecause e) else e), c', s')
           | None =>
             let '(res', wserr) := trim_nodes inp m res None in
             let s'' := match ho with Some h => emit (LSetRpos h res') s' | None => s' end in
